@@ -127,6 +127,17 @@ def describe_any(x):
     return describe(x)
 
 
+def run_conversions(sig, flavor):
+    """Only the conversions (to_<system>, to_VectorND) of one signature / flavor, compiled (C04's numba pass)."""
+    recs = []
+    n = len(sig) + 1
+    objs = [obj_of([mpf(c) for c in p[:n]], sig, flavor) for p in POINTS if coords.representable([mpf(c) for c in p[:n]], sig)]
+    exprs = ["a.to_Vector2D()", "a.to_Vector3D()", "a.to_Vector4D()"] + [f"a.to_{s}()" for k in (2, 3, 4) for s in SYSTEMS[k]]
+    base = {"op": "extra:conversion", "sig": [sig, None], "tag": "numba-extra", "flavors": [flavor, None], "mixed": "F"}
+    calls = compare_packed(base, exprs, ["a"], [(o,) for o in objs], 1e4, recs)
+    return recs, calls
+
+
 def run_unary(sig, flavor):
     import vector
 
@@ -251,6 +262,8 @@ def run_item(item):
         return run_unary(tuple(item[1]), item[2])
     if kind == "binary":
         return run_binary(tuple(item[1]), tuple(item[2]), item[3], item[4])
+    if kind == "conv":
+        return run_conversions(tuple(item[1]), item[2])
     return run_constructors(tuple(item[1]))
 
 
